@@ -9,10 +9,11 @@ RULE = ("population monitor on the family named in the statement: random rotated
         "in [-4,4]^D, start uniform in the plausible box [-5,5]^D, hard box [-20,20]^D, D uniform in 1..5, DEFAULT options, seeded; about a third of the runs are preceded, in the same process, by a non-default PILOT instance of the same dimension (short budget / coarse tolerances, constructed or run) from which the default-option run must inherit nothing. The "
         "target wrapper keeps the running best and the evaluation index at which it first came within 1e-2 of the known minimum. "
         "Oracle: (a) fraction of runs with f(result.x)-f* <= 1e-3 >= 0.90; (b) panel median of (evaluations-to-1e-2)/D <= 40; (c) EVERY "
-        "run: result.fval <= value at the mesh-snapped start (first call). Non-trivial/distinct = distinct (D, condition-number decade, "
+        "run: result.fval <= value at the mesh-snapped start (first call). A second panel of 60 problems from the hard corner of the same family (D 4-5, the quadratic shifted by +-1e3..1e8) is judged separately by the same thresholds. Non-trivial/distinct = distinct (D, condition-number decade, "
         "start-distance decile) cells hit by completed runs")
 RUN_KW = {"quick": dict(timeout_case=300, wall_cap=800), "thorough": dict(timeout_case=600, wall_cap=3300)}
-ASSUMPTIONS = ["a clean panel means 'held on this panel', not a guarantee about the population"]
+ASSUMPTIONS = ["a clean panel means 'held on this panel', not a guarantee about the population",
+               "a rotated quadratic shifted by a constant is still a member of the family (the statement's tolerances are absolute)"]
 
 
 def cases(tier, seed):
@@ -37,6 +38,18 @@ def cases(tier, seed):
                                          if rng2.random() < 0.6},
                              "run": bool(rng2.random() < 0.6)}
         out.append(case)
+    # SECOND PANEL, the hard corner of the same family: the highest dimensions (4-5), and the quadratic shifted by a large
+    # constant (|f*| = 1e3 .. 1e8; "within 1e-3 of the true minimum" is an absolute statement, and a log-likelihood-like
+    # target has exactly this shape).  A panel of >= 60 problems of the family in its own right, judged by the same thresholds.
+    for i in range(60 if tier == "quick" else 240):
+        rng = gen.rng_for(seed, "C06", 900000 + i)
+        D = int(rng.choice([4, 5]))
+        eig = 10 ** rng.uniform(0, 2, D)
+        eig[0], eig[-1] = 1.0, 10 ** rng.uniform(0, 2)
+        Q, _ = np.linalg.qr(rng.normal(size=(D, D)))
+        A = Q @ np.diag(eig) @ Q.T
+        out.append({"D": D, "A": A.tolist(), "xmin": rng.uniform(-4, 4, D).tolist(), "x0": rng.uniform(-5, 5, D).tolist(), "seed": int(rng.integers(0, 2**31 - 1)),
+                    "cond": float(max(eig) / min(eig)), "offset": float(rng.choice([1e3, -1e3, 1e6, 1e8, -1e8])), "panel": "hard"})
     return out
 
 
@@ -47,18 +60,20 @@ def run_case(case):
     A = np.array(case["A"])
     xm = np.array(case["xmin"])
     st = {"n": 0, "best": np.inf, "hit": None, "first": None}
+    off = float(case.get("offset", 0.0))
 
     def f(x):
         d = np.asarray(x, float).ravel() - xm
-        v = float(d @ A @ d)
+        v = float(d @ A @ d)  # distance to the true minimum value
         st["n"] += 1
+        ret = v + off  # what the optimiser sees
         if st["first"] is None:
-            st["first"] = v
+            st["first"] = ret
         if v < st["best"]:
             st["best"] = v
         if st["hit"] is None and st["best"] <= 1e-2:
             st["hit"] = st["n"]
-        return v
+        return ret
 
     pil = case.get("pilot")
     if pil is not None:
@@ -80,11 +95,24 @@ def run_case(case):
 
 
 def summarize(records, tier, seed):
-    ok = [r for r in records if r.get("status") == "ok"]
+    ok_all = [r for r in records if r.get("status") == "ok"]
+    hard = [r for r in ok_all if r["case"].get("panel") == "hard"]
+    ok = [r for r in ok_all if r["case"].get("panel") != "hard"]
     n = len(ok)
     panel_viol = []
     extra = {"runs_completed": n}
-    cells = set(tuple(r["cell"]) for r in ok)
+    cells = set(tuple(r["cell"]) for r in ok_all)
+    if hard:
+        fh = sum(1 for r in hard if r["gap"] <= 1e-3) / len(hard)
+        perh = [(r["hit"] / r["case"]["D"]) if r["hit"] is not None else np.inf for r in hard]
+        medh = float(np.median(perh))
+        extra["hard_panel(D 4-5, shifted by 1e3..1e8)"] = {"n": len(hard), "fraction_within_1e-3": round(fh, 4), "median_evals_to_1e-2_per_D": medh if np.isfinite(medh) else "inf",
+                                                            "worst_gap": float(max(r["gap"] for r in hard))}
+        if len(hard) >= 60:
+            if fh < 0.90:
+                panel_viol.append({"key": "C06/panel-success-fraction-below-90pct", "detail": {"fraction": fh, "n": len(hard), "panel": "hard corner: D 4-5, target shifted by a large constant"}})
+            if not (medh <= 40):
+                panel_viol.append({"key": "C06/panel-median-evaluations-to-1e-2-above-40D", "detail": {"median_per_D": medh if np.isfinite(medh) else "inf", "n": len(hard), "panel": "hard"}})
     if n:
         frac = sum(1 for r in ok if r["gap"] <= 1e-3) / n
         per = [(r["hit"] / r["case"]["D"]) if r["hit"] is not None else np.inf for r in ok]
